@@ -1,7 +1,7 @@
-(* C11 / K16: comparing the translated emission loop with the source text the real generator produced. *)
+(* C11 / K19: comparing the translated emission loop with the source text the real generator produced. *)
 From Coq Require Import List Bool Arith.
 From Verif Require Import UnionModel UnionEmit.
-From VerifGen Require Import K16.
+From VerifGen Require Import K19.
 Import ListNotations.
 
 (* shape of one emitted line (expression texts of non-scalar members are not compared) *)
@@ -35,5 +35,5 @@ Fixpoint codes_eqb (a b: list lcode) : bool :=
 Inductive mlite := LS (k: skind) | LN (e: nat) (isval: bool).
 Definition of_lite (m: mlite) : mspec := match m with LS k => SM k | LN e v => NM e v (fun _ => None) end.
 
-Definition k16case_ok (c: list mlite * list lcode) : bool :=
+Definition k19case_ok (c: list mlite * list lcode) : bool :=
   codes_eqb (map code_of (emit (map of_lite (fst c)))) (snd c).
